@@ -519,6 +519,17 @@ func allocSite(e *ev.Env, c *ev.Case, mk func() *fiber.App, input []byte, limit,
 // ill-formedness caused by its bytes maps to this one signature.
 const sigFlashRaw = "wellformed|flash-cookie-raw-msgpack-bytes"
 
+// flashCause maps a byte class to the cause vocabulary shared with the C12 signature.
+func flashCause(byteCls string) string {
+	switch byteCls {
+	case "CRLF", "CR", "LF":
+		return "line-break"
+	case "NUL":
+		return "nul"
+	}
+	return "control-byte"
+}
+
 // judgeStream applies the well-formedness oracle to everything a connection wrote back.
 func judgeStream(e *ev.Env, c *ev.Case, cfg string, input, out []byte) ([]*strict.Response, bool) {
 	rs, perr := parseWithHead(out)
@@ -546,7 +557,7 @@ func judgeStream(e *ev.Env, c *ev.Case, cfg string, input, out []byte) ([]*stric
 			// the flash cookie is raw MessagePack: name the worst byte class it carries rather
 			// than the first one met (old-input entries come in map order)
 			// one signature for the known root cause; the class is detail
-			sig = sigFlashRaw
+			sig = sigFlashRaw + "|" + flashCause(cls)
 			site = "flash-cookie:" + cls
 			e.Stat("flash_cookie_raw_"+cls, 1)
 		}
